@@ -31,9 +31,9 @@ ItemText(i) ==
       [] i = "cr"     -> <<CR>>
       [] i = "sp"     -> <<SP>>
       [] i = "tab"    -> <<TAB>>
-      [] i = "com"    -> S("// c")
+      [] i = "com"    -> S("// c%s")      \* (comments carry a formatting verb: they are data, never a format)
       [] i = "com0"   -> S("//")
-      [] i = "comsp"  -> S("//  d ")
+      [] i = "comsp"  -> S("//  50%d ")
       [] i = "eacute" -> <<233>>
       [] i = "bad"    -> <<-255>>
       [] i = "block"  -> S("/*")
